@@ -116,6 +116,9 @@ Fixpoint insert_at {A} (idx : list nat) (x : A) (l : list A) (pos : nat) : list 
 Section Resize.
 Context {T : Type}.
 Variables (zero : T).
+(* [shifted] = true: repaired semantics (fixes/C19-resize-diagonal.patch), the k-th inserted coordinate
+   is at to_add[k] + k;  false: the tree without that patch uses to_add[k] itself *)
+Variable shifted : bool.
 
 Definition set_diag (S : list (list T)) (i : nat) (x : T) : list (list T) :=
   map2 (fun r k => if Nat.eqb k i then map2 (fun y j => if Nat.eqb j i then x else y) r (seq 0 (length r)) else r)
@@ -132,7 +135,8 @@ Definition reinit_bandit_grads (old new : layer) (dval : T) (S : list (list T)) 
       let n1 := length S1 in
       let S2 := insert_at ta (repeat zero n1) S1 0 in          (* np.insert(..., to_add, 0, 0) *)
       let S3 := map (fun r => insert_at ta zero r 0) S2 in      (* np.insert(..., to_add, 0, 1) *)
-      fold_left (fun M i => set_diag M i dval) ta S3            (* for i in to_add: M[i, i] = 1 / lamb *)
+      let pos := if shifted then map2 (fun a k => a + k) ta (seq 0 (length ta)) else ta in
+      fold_left (fun M i => set_diag M i dval) pos S3           (* for i in ...: M[i, i] = 1 / lamb *)
   end.
 End Resize.
 
@@ -180,7 +184,7 @@ Definition step (s : bstate) (o : op) : bstate :=
   | MutDirect new => {| lam := lam s; live := new; bound := true; numel := numel s; sig := sig s |}
   | Resize new =>
       {| lam := lam s; live := new; bound := true; numel := layer_numel new;
-         sig := reinit_bandit_grads zero (live s) new (div one (lam s)) (sig s) |}
+         sig := reinit_bandit_grads zero true (live s) new (div one (lam s)) (sig s) |}
   | Clone => {| lam := lam s; live := live s; bound := true; numel := numel s; sig := sig s |}
   | Reload => {| lam := lam s; live := live s; bound := reload_rebinds; numel := numel s; sig := sig s |}
   end.
